@@ -79,7 +79,7 @@ def tad_pipe():
     return _pipe["tad"]
 
 
-BUILD = dict(near_chain=G.near_chain, final_to_dead=G.final_to_dead, zero_alive=G.zero_alive, order_sum=G.order_sum, zero_dead=G.zero_dead, p2_selfloop=G.p2_selfloop, huge_reward=G.huge_reward, zero_branch=G.zero_branch, decimals2=G.decimals2, tiny_vs_dead=G.tiny_vs_dead, cancel_mass=G.cancel_mass,
+BUILD = dict(near_chain=G.near_chain, near_sep=G.near_sep, final_to_dead=G.final_to_dead, zero_alive=G.zero_alive, order_sum=G.order_sum, zero_dead=G.zero_dead, p2_selfloop=G.p2_selfloop, huge_reward=G.huge_reward, zero_branch=G.zero_branch, decimals2=G.decimals2, tiny_vs_dead=G.tiny_vs_dead, cancel_mass=G.cancel_mass,
              dead_branch_rewards=G.dead_branch_rewards, corridor=G.corridor, p1_final=G.p1_final, init_final=G.init_final, big_rewards=G.big_rewards, dup_actions=G.dup_actions, decimals=G.decimals,
              tie_small=G.tie_small, all_live_orphan=G.all_live_orphan, p2_shared=G.p2_shared, paid_final=G.paid_final, orphans=G.orphans, slow_rew=G.slow_rew, regroup=G.regroup, rew_ties=G.rew_ties, fig55=G.fig55, dead=G.dead_family, cyc=G.cyc, cyc2=G.cyc2, ec=G.ec, finals=G.finals, p2choice=G.p2choice,
              lex=G.lex, ties=G.ties, ties_p2=G.ties_p2, nosol=G.nosol, unreach=G.unreach, slow_chain=G.slow_chain)
@@ -227,7 +227,8 @@ def _reach_jobs(tier, seed):
     dbg = [dict(game=g, args=a, debug=True, _cost=1) for g, a in (("fig55", [0.5, 0.75]), ("p2choice", [[2, 1, 0], P1]), ("ties", ["tenths"]),
                                                                  ("dead", [P1, ["A", "B"]]), ("dead", [PR, ["D", "A"]]))]
     return dbg + [dict(game=g, args=a, _cost=1) for g, a in _stopping_instances(tier) + _reach_only_instances(tier)] + \
-        [dict(game="slow_chain", args=[], _props=["C01"]), dict(game="fig55", args=[5e-7, 5e-7], _props=["C06"])]
+        [dict(game="slow_chain", args=[], _props=["C01"]), dict(game="fig55", args=[5e-7, 5e-7], _props=["C06"])] + \
+        [dict(game="near_sep", args=[k, list(o)], _props=["C04"]) for k in (P1, P2) for o in itertools.permutations(range(3))]
 
 
 def _check_shape(sp, g, res):
@@ -291,6 +292,12 @@ def pipe_reach(sp, game, args, debug=False):
             dexact = oracle_decimal(game, args)
             vals = [dexact[t] for _, t in g.tl[s]]
             ok = all(a == b or abs(a - b) > Fraction(1, 10 ** 5) for a, b in itertools.combinations(vals, 2))
+            if not ok and g.acyclic():
+                # acyclic templates report exact values up to float noise: the statement's own bound applies (further apart than
+                # the tolerance 1e-6), provided no value sits within 1e-8 of a boundary between two 6-digit rounding cells
+                u = Fraction(1, 10 ** 6)
+                ok = all(a == b or abs(a - b) > u for a, b in itertools.combinations(vals, 2)) and \
+                    all(Fraction(1, 10 ** 8) < (v - u / 2) % u < u - Fraction(1, 10 ** 8) for v in vals)
             if not ok:
                 continue
             ext = max(vals) if g.players[s] == P1 else min(vals)
